@@ -103,6 +103,7 @@ def alphabet_for(d, z, rich=True):
     return a, eol
 
 
+BIG_SIZES_SMALL = [1023, 1024, 1025, 4095, 4096, 4097, 6000, 8191, 8192, 8193, 20000, 65535, 65536, 65537, 70000]
 MEDIUM = [15, 16, 17, 31, 32, 33, 42, 43, 63, 64, 65, 100, 127, 128, 129, 200, 255, 256, 257, 300, 511, 512, 513]
 
 
